@@ -754,3 +754,26 @@ def parse_int(s):
         bad()
     v = wrapint(v)
     return -v if neg else v
+
+
+class LazyTailStr:
+    """result of decoding a buffer of symbolic length: a certain prefix
+    plus a concrete tail whose extent is decided lazily while iterating"""
+    def __init__(self, prefix, tail, len_t, lmin):
+        self._p = prefix
+        self._t = tail
+        self._lt = len_t
+        self._lmin = lmin
+
+    def __iter__(self):
+        for ch in self._p:
+            yield SymStr([ch])
+        i = self._lmin
+        for v in self._t:
+            if not core.ENG.branch(self._lt > i):
+                return
+            yield SymStr([v])
+            i += 1
+
+    def __getattr__(self, name):
+        raise Unsupported('%s on a decoded buffer of symbolic length' % name)
